@@ -14,7 +14,8 @@
    Every Python operation that can raise something other than a DataGenError is a *checked
    primitive* here (py_get, py_attr, py_split_include, py_startswith, py_hash, py_assert,
    need_parent, as_dict, and the type tests inside parse_fields / parse_friends / pot_val): it returns Err (Internal "<Exception>:<file>:<function>")
-   where Python would raise.  The theorems of proofs/RejectP.v show which of them can fire.
+   where Python would raise.  The theorems of proofs/RejectP.v show that none of them can fire (the code
+   as repaired by notes/patches/C20_*.diff).
 
    Dynamic half (exec_top): the exception wrappers of data_generator_runtime_object_model.py
    (FieldFactory.generate_value, FieldDefinition.exception_handling, SimpleValue.render,
@@ -24,7 +25,8 @@
 
    Outside the model: PyYAML (text -> tree; what it raises for unloadable text is an input),
    importlib and the file system (inputs: penv / fenv), Jinja, Faker, plugin code, parser-macro
-   plugins (Unsupported), cyclic alias graphs (not trees), update mode, continuation files. *)
+   plugins (Unsupported), cyclic alias graphs (not trees; parse_file's check_no_recursive_aliases rejects
+   them before anything is parsed), update mode, continuation files. *)
 From SFV Require Import Base.
 Open Scope string_scope.
 Open Scope list_scope.
